@@ -67,6 +67,8 @@ def snapshot(t, with_ranks=True):
         snap["ids"] = [enc_value(_jsonable(r.getId())) for r in t.ranks]
         snap["ranklists"] = [[id(f) for f in r.getFibers()] for r in t.ranks]
         snap["fmt"] = [r.getFormat() for r in t.ranks]
+        snap["name"] = t.getName()
+        snap["mutable"] = bool(t.isMutable())
         snap["default"] = [enc_default(r) for r in t.ranks]
     return snap
 
